@@ -7,6 +7,8 @@ package main
 //                              VisitorBaseConfig.Complete and the Complete of every mapped type,
 //                              TypedVisitorConfig.UnmarshalJSON / MarshalJSON
 //   pkg/config/v1/proxy.go     TypedProxyConfig.UnmarshalJSON / MarshalJSON
+//   pkg/config/load.go         LoadConfigure: what it does with the package-level strict switch of v1
+//                              (mutex lock / unlock, the write, the decoding of the document), in execution order
 // and writes <out>/TypedConf.lean (+ TypedConf.json): the visitor types, the ordered steps of the visitor
 // Complete methods and the statement sequences of the two typed (un)marshallers.
 //
@@ -47,6 +49,217 @@ type typedFacts struct {
 	VisitorUnmarshal  []string
 	ProxyMarshal      string
 	VisitorMarshal    string
+	LoadEvents        []string // lock | setFlag | decode | unlock
+}
+
+// ---------------------------------------------------------------- LoadConfigure and the strict switch
+//
+// lockEvents walks LoadConfigure(b, c, strict) in source (= execution) order and records
+//
+//	v1.DisallowUnknownFieldsMu.Lock()                     lock
+//	v1.DisallowUnknownFieldsMu.Unlock()                   unlock
+//	defer v1.DisallowUnknownFieldsMu.Unlock()             unlock, placed at the end of the function that defers it
+//	v1.DisallowUnknownFields = <the strict parameter>     setFlag
+//	any call that is handed the target parameter c        decode   (consecutive ones — the alternative
+//	                                                      return paths — are one event)
+//	a call of a function of the same file that mentions the switch: its events, inlined (its own deferred
+//	unlock runs when IT returns)
+//
+// Any other mention of v1.DisallowUnknownFields / v1.DisallowUnknownFieldsMu in pkg/config/load.go (another
+// writer, a goroutine, a function literal, a conditional write of something else) is an error.
+type lockWalk struct {
+	fi     *fileInfo
+	events []string
+	seen   map[string]bool // functions whose mentions are accounted for
+}
+
+func mentionsSwitch(n ast.Node) bool {
+	found := false
+	ast.Inspect(n, func(x ast.Node) bool {
+		if se, ok := x.(*ast.SelectorExpr); ok && strings.HasPrefix(render(se), "v1.DisallowUnknownFields") {
+			found = true
+		}
+		return !found
+	})
+	return found
+}
+
+func boolParams(fd *ast.FuncDecl) []string {
+	out := []string{}
+	for _, f := range fd.Type.Params.List {
+		if render(f.Type) == "bool" {
+			for _, n := range f.Names {
+				out = append(out, n.Name)
+			}
+		}
+	}
+	return out
+}
+
+func (w *lockWalk) fn(fd *ast.FuncDecl, strict, target string, depth int) error {
+	if depth > 4 {
+		return fmt.Errorf("%s: call chain around the strict switch is too deep", fd.Name.Name)
+	}
+	w.seen[fd.Name.Name] = true
+	deferred := 0
+	var err error
+	fail := func(f string, a ...any) bool {
+		if err == nil {
+			err = fmt.Errorf("%s: "+f, append([]any{fd.Name.Name}, a...)...)
+		}
+		return false
+	}
+	ast.Inspect(fd.Body, func(n ast.Node) bool {
+		if err != nil {
+			return false
+		}
+		switch v := n.(type) {
+		case *ast.GoStmt:
+			if mentionsSwitch(v) {
+				return fail("goroutine touching the strict switch: %s", renderStmt(v))
+			}
+		case *ast.FuncLit:
+			if mentionsSwitch(v) {
+				return fail("function literal touching the strict switch")
+			}
+		case *ast.DeferStmt:
+			if render(v.Call.Fun) == "v1.DisallowUnknownFieldsMu.Unlock" && len(v.Call.Args) == 0 {
+				deferred++
+				return false
+			}
+			if mentionsSwitch(v) {
+				return fail("unexpected deferred statement: %s", renderStmt(v))
+			}
+		case *ast.AssignStmt:
+			for _, l := range v.Lhs {
+				if strings.HasPrefix(render(l), "v1.DisallowUnknownFields") {
+					if len(v.Lhs) != 1 || len(v.Rhs) != 1 || v.Tok != token.ASSIGN || render(l) != "v1.DisallowUnknownFields" ||
+						strict == "" || render(v.Rhs[0]) != strict {
+						return fail("unexpected write of the strict switch: %s", renderStmt(v))
+					}
+					w.events = append(w.events, "setFlag")
+					return false
+				}
+			}
+		case *ast.CallExpr:
+			switch fun := render(v.Fun); {
+			case fun == "v1.DisallowUnknownFieldsMu.Lock" && len(v.Args) == 0:
+				w.events = append(w.events, "lock")
+				return false
+			case fun == "v1.DisallowUnknownFieldsMu.Unlock" && len(v.Args) == 0:
+				w.events = append(w.events, "unlock")
+				return false
+			}
+			if id, ok := v.Fun.(*ast.Ident); ok {
+				if callee, has := w.fi.funcs[id.Name]; has && callee.Body != nil && mentionsSwitch(callee.Body) {
+					// which of the callee's parameters receive our strict flag / our target
+					cs, ct, i := "", "", 0
+					for _, f := range callee.Type.Params.List {
+						for _, pn := range f.Names {
+							if i < len(v.Args) {
+								if a := render(v.Args[i]); a == strict && strict != "" && render(f.Type) == "bool" {
+									cs = pn.Name
+								} else if a == target && target != "" {
+									ct = pn.Name
+								}
+							}
+							i++
+						}
+					}
+					for _, a := range v.Args {
+						if mentionsSwitch(a) {
+							return fail("the strict switch is passed to %s", id.Name)
+						}
+					}
+					if e := w.fn(callee, cs, ct, depth+1); e != nil {
+						err = e
+					}
+					return false
+				}
+			}
+			for _, a := range v.Args {
+				if target != "" && render(a) == target {
+					w.events = append(w.events, "decode")
+					break
+				}
+			}
+		case *ast.SelectorExpr:
+			if strings.HasPrefix(render(v), "v1.DisallowUnknownFields") {
+				return fail("unexpected use of the strict switch: %s", render(v))
+			}
+		}
+		return true
+	})
+	if err != nil {
+		return err
+	}
+	if deferred > 1 {
+		return fmt.Errorf("%s: more than one deferred unlock", fd.Name.Name)
+	}
+	if deferred == 1 {
+		w.events = append(w.events, "unlock")
+	}
+	return nil
+}
+
+func loadConfigureEvents(repo string, fset *token.FileSet) ([]string, error) {
+	lf, err := loadFile(fset, filepath.Join(repo, "pkg/config/load.go"))
+	if err != nil {
+		return nil, err
+	}
+	v1ok := false
+	for _, im := range lf.f.Imports {
+		if im.Path.Value == `"github.com/fatedier/frp/pkg/config/v1"` && im.Name != nil && im.Name.Name == "v1" {
+			v1ok = true
+		}
+	}
+	if !v1ok {
+		return nil, fmt.Errorf("pkg/config/load.go does not import pkg/config/v1 as v1")
+	}
+	lc, ok := lf.funcs["LoadConfigure"]
+	if !ok || lc.Body == nil {
+		return nil, fmt.Errorf("LoadConfigure not found")
+	}
+	names := []string{}
+	for _, f := range lc.Type.Params.List {
+		for _, n := range f.Names {
+			names = append(names, n.Name+" "+render(f.Type))
+		}
+	}
+	if strings.Join(names, ", ") != "b []byte, c any, strict bool" {
+		return nil, fmt.Errorf("LoadConfigure: unexpected parameters (%s)", strings.Join(names, ", "))
+	}
+	w := &lockWalk{fi: lf, seen: map[string]bool{}}
+	if err := w.fn(lc, "strict", "c", 0); err != nil {
+		return nil, err
+	}
+	for name, fd := range lf.funcs {
+		if !w.seen[name] && fd.Body != nil && mentionsSwitch(fd.Body) {
+			return nil, fmt.Errorf("%s touches the strict switch outside LoadConfigure", name)
+		}
+	}
+	for name, fd := range lf.methods {
+		if fd.Body != nil && mentionsSwitch(fd.Body) {
+			return nil, fmt.Errorf("%s touches the strict switch outside LoadConfigure", name)
+		}
+	}
+	out := []string{}
+	for _, e := range w.events {
+		if e == "decode" && len(out) > 0 && out[len(out)-1] == "decode" {
+			continue
+		}
+		out = append(out, e)
+	}
+	dec := 0
+	for _, e := range out {
+		if e == "decode" {
+			dec++
+		}
+	}
+	if dec == 0 {
+		return nil, fmt.Errorf("LoadConfigure: no call decodes into c")
+	}
+	return out, nil
 }
 
 // statement shapes accepted in a visitor Complete(g) body (receiver c):
@@ -317,6 +530,9 @@ func extractTypedConf(repo string) (*typedFacts, error) {
 	if fx.VisitorUnmarshal, fx.VisitorMarshal, err = typedUnmarshal(vf, "Visitor"); err != nil {
 		return nil, err
 	}
+	if fx.LoadEvents, err = loadConfigureEvents(repo, fset); err != nil {
+		return nil, err
+	}
 	return fx, nil
 }
 
@@ -362,7 +578,8 @@ func emitTypedConfLean(fx *typedFacts) string {
 	w := func(f string, a ...any) { fmt.Fprintf(&b, f, a...) }
 	w("/-\n  GENERATED by `translate TypedConf` — do not edit.\n")
 	w("  Source: pkg/config/v1/visitor.go (visitorConfigTypeMap, NewVisitorConfigurerByType, the Complete methods,\n")
-	w("  TypedVisitorConfig.UnmarshalJSON/MarshalJSON), pkg/config/v1/proxy.go (TypedProxyConfig.UnmarshalJSON/MarshalJSON).\n-/\n")
+	w("  TypedVisitorConfig.UnmarshalJSON/MarshalJSON), pkg/config/v1/proxy.go (TypedProxyConfig.UnmarshalJSON/MarshalJSON),\n")
+	w("  pkg/config/load.go (LoadConfigure: the strict switch and its mutex).\n-/\n")
 	w("import Frp.Model.Str\nnamespace Frp\nnamespace Gen\nnamespace TypedConf\n\n")
 	w("/-- visitor types (keys of `visitorConfigTypeMap`) -/\ninductive VT\n")
 	for _, t := range fx.VisitorTypes {
@@ -436,6 +653,17 @@ inductive UStep
 	w("def visitorUnmarshalJSON : List UStep := %s\n\n", ul(fx.VisitorUnmarshal))
 	w("/-- Typed…Config.MarshalJSON is `return json.Marshal(c.…Configurer)` -/\n")
 	w("def proxyMarshalsConfigurer : Bool := %v\ndef visitorMarshalsConfigurer : Bool := %v\n\n", fx.ProxyMarshal == "marshalConfigurer", fx.VisitorMarshal == "marshalConfigurer")
+	w(`/-- what LoadConfigure(b, c, strict) does with the package-level strict switch of v1, in execution order
+    (calls of same-file helpers inlined; a deferred unlock placed where it runs) -/
+inductive LEv
+  | lock      -- v1.DisallowUnknownFieldsMu.Lock()
+  | setFlag   -- v1.DisallowUnknownFields = strict
+  | decode    -- the document is decoded into c (json / yaml decoder; the nested UnmarshalJSON methods read the switch)
+  | unlock    -- v1.DisallowUnknownFieldsMu.Unlock()
+  deriving DecidableEq, Repr
+
+`)
+	w("def loadConfigureEvents : List LEv := %s\n\n", ul(fx.LoadEvents))
 	w("end TypedConf\nend Gen\nend Frp\n")
 	return b.String()
 }
